@@ -488,7 +488,10 @@ func (e *Eng) ghostInit(g GhostDecl, st *State, symbolic bool) Val {
 		if e.bv && (g.Type[i+1:] == "byte" || g.Type[i+1:] == "uint8") {
 			vs = "(_ BitVec 8)"
 		}
-		zero := map[string]string{"Bool": "false", "Int": "0", "Str": "str.empty", "(_ BitVec 8)": "(_ bv0 8)"}[vs]
+		if e.bv && g.Type[i+1:] == "int" {
+			vs = "(_ BitVec 64)"
+		}
+		zero := map[string]string{"Bool": "false", "Int": "0", "Str": "str.empty", "(_ BitVec 8)": "(_ bv0 8)", "(_ BitVec 64)": "(_ bv0 64)"}[vs]
 		v = Val{K: KGMap, GKey: ks, GVal: vs}
 		if symbolic && g.Init == "" {
 			v.T = e.newSym("ghost."+g.Name, "(Array "+ks+" "+vs+")")
